@@ -7,6 +7,7 @@ import (
 	"net"
 	"net/http"
 	"net/http/httptest"
+	"net/url"
 	"os"
 	"os/exec"
 	"path"
@@ -160,7 +161,18 @@ func init() {
 	// until the end of the case; a "now" argument of 0 and the calls without one read it
 	register("setclock", func(s *sess, tk []string) {
 		t := atoi(tk[1])
-		wt.Now = func() time.Time { return time.Unix(t, 0) }
+		// setclock T STEP: every reading of the clock shows STEP seconds more than the one before (a call that
+		// reads the clock reads it once: its instant is the first value it sees)
+		step := int64(0)
+		if len(tk) > 2 {
+			step = atoi(tk[2])
+		}
+		reads := int64(0)
+		wt.Now = func() time.Time {
+			v := t + step*reads
+			reads++
+			return time.Unix(v, 0)
+		}
 		clockMocked = true
 		s.obs("setclock ok")
 	})
@@ -279,4 +291,27 @@ func init() {
 		pd1, pd2 := p.Diff(q)
 		s.obs("tsapi eqrs=%v equal=%v diff=%s diffx=%s peq=%v pdiff=%s", a.EqualTimeRangeAndStep(b), a.Equal(b), show(d1, d2), show(x1, x2), p.Equal(q), show(pd1, pd2))
 	})
+}
+
+func init() {
+	// cliabort file=NAME: a client asks the server for the raw dump of NAME and resets its connection without
+	// reading the answer (the server's write fails).  Whatever the server does about it, the requests that
+	// follow are answered like any other.
+	handlers["cliabort"] = func(s *sess, tk []string) {
+		a := parseKV(tk[1:])
+		s.closeAll()
+		s.echo(strings.Join(tk, " "))
+		u := s.serverURL()
+		conn, err := net.Dial("tcp", strings.TrimPrefix(u, "http://"))
+		must(err)
+		rel := filepath.Join(filepath.Base(s.dir), a["file"])
+		fmt.Fprintf(conn, "GET /%s?file=%s&retention=-1&from=%s&until=%s&now=%s HTTP/1.1\r\nHost: x\r\n\r\n", a.str("path", "view-raw"), url.QueryEscape(rel),
+			url.QueryEscape(wt.Timestamp(0).String()), url.QueryEscape(wt.Timestamp(time.Now().Unix()).String()), url.QueryEscape(wt.Timestamp(time.Now().Unix()).String()))
+		if tc, ok := conn.(*net.TCPConn); ok {
+			tc.SetLinger(0)
+		}
+		conn.Close()
+		time.Sleep(300 * time.Millisecond)
+		s.obs("cliabort done")
+	}
 }
